@@ -489,13 +489,80 @@ def l3_run(cfg, ch, res):
         )
 
 
+# ------------------------------------------------------------------------------------------------ L4 consecutive requests of one client
+
+L4_CASES = [
+    (2, ("fail", "slow", "fast")),  # two streams: one fails while its sibling is still in flight, then the client's next request starts
+    (2, ("slow", "fail", "fast")),
+    (7, ("fail", "slow", "fast")),
+    (7, ("fast", "fail", "slow")),
+    (4, ("fail", "slow", "fast")),
+    (3, ("fail", "fast", "slow")),
+    (2, ("fast", "slow", "fast")),
+    (1, ("fast", "fail", "fast")),
+]
+
+
+def l4_run(cfg, ch, res):
+    """three consecutive invocations of a composite by ONE client through the real AsyncExecutor (on-error=continue): what an invocation
+    leaves behind (sub-streams still in flight after a sibling failed) must not show up in the timing of the next request"""
+    from esrally.track import track
+
+    from mc import loadgen
+    from mc.vclock import EPOCH
+
+    si, kinds = cfg
+    env()
+    loadgen.setup()
+    requests = STRUCTS[si][1](*[op(k, f"op-{n}") for k, n in zip(kinds, "abc")])
+    o = track.Operation("comp-op", "composite", params={"requests": requests, "task-key": "comp"}, param_source=loadgen.SOURCE)
+    task = track.Task("comp", o, clients=1, iterations=3)
+    v = None
+    try:
+        r = loadgen.run_worker([(0, loadgen.allocation(task, 0))], behaviour, on_error="continue", chooser=ch, horizon=10_000.0)
+        if r.error is not None or r.loop_errors:
+            v = ("raises", f"{type(r.error).__name__ if r.error else ''}: {r.error} {r.loop_errors[:1]}")
+        else:
+            ss = sorted(r.samples, key=lambda x: x.absolute_time)
+            issues = [x.absolute_time - EPOCH for x in ss]
+            wire = sorted((e for e in r.log if e["client_id"] == 0), key=lambda e: e["t_start"])
+            if len(ss) != 3:
+                v = ("sample-count", f"{len(ss)} samples for 3 invocations")
+            for k, smp in enumerate(ss):
+                if v:
+                    break
+                hi = issues[k + 1] if k + 1 < len(ss) else float("inf")
+                own = [e for e in wire if issues[k] - 1e-9 <= e["t_start"] < hi - 1e-9]
+                if not own:
+                    v = ("no-wire-request", f"invocation {k} issued at {issues[k]} has no wire request")
+                elif abs(smp.request_start - own[0]["t_start"]) > 1e-9:
+                    v = ("start-of-another-request" if smp.request_start < issues[k] - 1e-9 else "start-too-late",
+                         f"invocation {k} (issued at {issues[k]}): recorded request_start {smp.request_start}, its first wire request started at {own[0]['t_start']}; "
+                         f"wire {[(e['target'], e['t_start'], e['t_end']) for e in wire]}")
+                elif smp.service_time < -1e-9 or smp.request_start + smp.service_time > max(e["t_end"] for e in own) + 1e-9:
+                    v = ("end-outside-request", f"invocation {k}: recorded start {smp.request_start} + service time {smp.service_time}, its wire requests end by {max(e['t_end'] for e in own)}")
+    except Exception as ex:  # noqa
+        v = ("raises", f"{type(ex).__name__}: {ex}")
+    res.case(
+        case_repr={"L4_composite_three_times": requests, "schedule": list(ch.choices)} if res.sample_now(101) else None,
+        nontrivial_key=("L4", si, kinds, tuple(ch.choices)),
+        outcome_key=("L4", STRUCTS[si][0], v[0] if v else "ok", len(ch.choices)),
+    )
+    if v:
+        res.violation(
+            f"ctx:L4:{v[0]}:{STRUCTS[si][0]}" + (":failed-request" if "fail" in kinds else ""),
+            f"one client, composite {requests} three times, schedule {list(ch.choices)}: {v[1]}",
+            {"layer": 4, "cfg": [si, list(kinds)], "choices": list(ch.choices)},
+        )
+
+
 def _job(arg):
     import logging
 
     logging.disable(logging.CRITICAL)
     layer, items, bound = arg
     res = Result()
-    fn = {1: l1_run, 2: l2_run, 3: l3_run}[layer]
+    fn = {1: l1_run, 2: l2_run, 3: l3_run, 4: l4_run}[layer]
     for it in items:
         explore.explore_subtree(lambda ch, r, it=it: fn(it, ch, r), (), bound, res, max_exec=400)
     return res
@@ -508,7 +575,9 @@ def run(tier, seed):
     pairs = [(2, ("slow", "fast", "fast")), (3, ("fast", "sleep", "slow")), (6, ("slow", "fast", "sleep")), (0, ("fast", "fast", "fast"))]
     l3 = [(a, b, off) for a in pairs for b in pairs for off in (0, 0.25, 1.0)]
     jobs = [(1, chk, bound) for chk in par.chunks(t, par.NPROC * 6)] + [(2, chk, bound) for chk in par.chunks(l2, par.NPROC)] + [(3, chk, bound) for chk in par.chunks(l3, par.NPROC)]
+    jobs += [(4, [c], bound) for c in L4_CASES]
     res = par.pmap(_job, jobs, seed=seed)
+    res.extra["L4_sequences"] = len(L4_CASES)
     words = list(signal_words())
     l0_run(words, res)
     res.extra["L0_signal_sequences"] = len(words)
@@ -539,6 +608,8 @@ def replay(data):
     elif data["layer"] == 2:
         si, kinds, mc = data["cfg"]
         l2_run((si, tuple(kinds), mc), ch, res)
+    elif data["layer"] == 4:
+        l4_run((data["cfg"][0], tuple(data["cfg"][1])), ch, res)
     else:
         a, b, off = data["cfg"]
         l3_run(((a[0], tuple(a[1])), (b[0], tuple(b[1])), off), ch, res)
